@@ -53,6 +53,18 @@ class PyUnit:
         for k in [k for k in sys.modules if k == "vt" or k.startswith("vt.") or k == "nunavut_support"]:
             del sys.modules[k]
         sys.path.insert(0, str(gen))
+        import functools
+        real_lru, real_cache = functools.lru_cache, getattr(functools, "cache", None)
+
+        def _transparent_lru(*a: typing.Any, **k: typing.Any) -> typing.Any:
+            # memoisation is transparent to a per-call symbolic run (symbolic values are not hashable); what a cache REMEMBERS between
+            # calls is the subject of the concrete history co-simulation (history_cosimulate), not of these queries
+            if len(a) == 1 and callable(a[0]) and not k:
+                return a[0]
+            return lambda f: f
+        functools.lru_cache = _transparent_lru  # type: ignore
+        if real_cache is not None:
+            functools.cache = _transparent_lru  # type: ignore
         try:
             self.ns = importlib.import_module("nunavut_support")
             sym.inject(self.ns, dict(struct=npshim.StructShim))
@@ -62,6 +74,9 @@ class PyUnit:
                     sym.inject(mod)
         finally:
             sys.path.remove(str(gen))
+            functools.lru_cache = real_lru  # type: ignore
+            if real_cache is not None:
+                functools.cache = real_cache  # type: ignore
 
     def cls(self, t: pydsdl.CompositeType) -> typing.Any:
         t = D.inner(t)
@@ -622,6 +637,19 @@ def dump(t, o):
         return ["carr", [dump(et, x) for x in o], str(o.dtype)]
     it = t.inner_type if isinstance(t, pydsdl.DelimitedType) else t
     return ["obj", {f.name: (None if getattr(o, f.name) is None else dump(f.data_type, getattr(o, f.name))) for f in it.fields_except_padding}, ""]
+def poison(t, o):
+    """overwrite, in place, every array reachable from a decoded object (what an application may do with its own message)"""
+    it = t.inner_type if isinstance(t, pydsdl.DelimitedType) else t
+    for f in it.fields_except_padding:
+        v = getattr(o, f.name)
+        if v is None: continue
+        if isinstance(v, np.ndarray):
+            if v.dtype == np.object_:
+                for x in v: poison(f.data_type.element_type, x)
+            elif v.flags.writeable and v.size:
+                v.view(np.uint8)[...] = 0xA5
+        elif isinstance(f.data_type, pydsdl.CompositeType):
+            poison(f.data_type, v)
 req = json.loads(sys.stdin.read())
 types = {}
 for c in ns.__dict__.get("_x", []): pass
@@ -642,6 +670,8 @@ for r in req:
         else:
             o = ns.deserialize(c, [memoryview(bytearray.fromhex(r["buf"]))])
             out.append(dict(ok=True, value=None if o is None else dump(m, o)))
+            if r.get("poison") and o is not None:
+                poison(m, o)
     except Exception as e:
         out.append(dict(ok=False, exc=type(e).__name__, msg=str(e)[:200]))
 print(json.dumps(out))
@@ -1368,3 +1398,75 @@ except Exception as e:
         bad = must_raise or r["n"] != n or not r["same"] or r["dtype"] != dt.name
         return bad, f"native: stored {r}"
     return True, f"native: {r}"
+
+
+# ---------------------------------------------------------------------------------------------- process history (concrete, real numpy)
+def history_cosimulate(gen: pathlib.Path, types: typing.Sequence[pydsdl.CompositeType], seed: int) -> typing.Tuple[int, typing.List[str]]:
+    """State kept between calls (memoised helpers, shared scratch arrays) is invisible to a per-call symbolic run, which re-imports nothing and
+    treats caches as transparent.  This CONCRETE run executes, in ONE process with the real numpy: serialize A, serialize B, serialize A again
+    (A and B differing in the sign of every float zero and in integer values), and deserialize X, overwrite every array of the result in place,
+    deserialize Y, deserialize X again (X truncated before its last fields).  Every result is compared with the specification evaluated concretely.
+    Returns (number of native calls compared, list of violations)."""
+    import random
+    rng = random.Random(seed)
+    reqs: typing.List[dict] = []
+    expect: typing.List[tuple] = []
+    for t in types:
+        if t.short_name.startswith("S_"):
+            continue
+        shp = list(itertools.islice(shapes(t), 12))
+        shape = shp[-1]
+        plans = []
+        for variant in (0, 1):
+            plan = Plan()
+            make(plan, t, shape, "")
+            s = z3.Solver()
+            s.add(*plan.pre)
+            vals = {}
+            for name, v in plan.vars:
+                if z3.is_fp(v):
+                    vals[name] = "f:%016x" % (0x8000000000000000 if variant else 0)
+                else:
+                    n = v.size()
+                    c = rng.getrandbits(n) if variant else 0
+                    s.push()
+                    s.add(v == c)
+                    if s.check() != z3.sat:
+                        s.pop()
+                        s.check()
+                        c = s.model().eval(v, model_completion=True).as_long()
+                    else:
+                        s.pop()
+                    s.add(v == c)
+                    vals[name] = c
+            plans.append((plan, vals))
+        full = str(D.inner(t).full_name)
+        for k in (0, 1, 0, 1):
+            plan, vals = plans[k]
+            reqs.append(dict(type=full, fn="ser", value=value_json(t, shape, iter([vals[n] for n, _ in plan.vars]))))
+            expect.append(("ser", t, shape, vals))
+        mx = max_bytes(t)
+        x = bytes(rng.getrandbits(8) for _ in range(max(mx // 2, 0)))
+        y = bytes(rng.getrandbits(8) for _ in range(mx))
+        # short buffers whose first byte is a plausible count / tag and whose remaining fields lie in the implicit zero extension
+        for buf, poison in ((b"\x01", True), (b"\x02", True), (b"", True), (b"\x01", True), (x, True), (y, True), (b"\x01\x00\x00\x00\x00", True),
+                            (x, False), (b"\x02", False), (b"", False)):
+            reqs.append(dict(type=full, fn="des", buf=buf.hex(), poison=poison))
+            expect.append(("des", t, buf.hex()))
+    nat = native_batch(gen, reqs)
+    bad: typing.List[str] = []
+    for r, e, n in zip(reqs, expect, nat):
+        if not n["ok"]:
+            if n["exc"] == "OverflowError" and "out of bounds for" in n.get("msg", ""):
+                continue
+            bad.append(f"{r['type']} {r['fn']}: native raises {n['exc']}: {n.get('msg')}")
+            continue
+        if e[0] == "ser":
+            ok, how = spec_check_ser(e[1], e[2], e[3], n["hex"])
+            if not ok:
+                bad.append(f"{r['type']} serialize {json.dumps(r['value'])[:120]} (after other values in the same process): {how}")
+        else:
+            ok, how = spec_check_des(e[1], e[2], n)
+            if not ok:
+                bad.append(f"{r['type']} deserialize {e[2]} (after other buffers and in-place edits of earlier results): {how}")
+    return len(reqs), bad
